@@ -109,6 +109,8 @@ def run(ctx):
         if g == 0:
             cfgs.append(dict(seed=ctx.seed, mode="small", level="both", maxops=3 if thorough else 2))
             cfgs.append(dict(seed=ctx.seed, mode="bulk"))
+        if g == 1:   # long chronicler sessions: more than 100 entries, the inline compaction rewrites the file
+            cfgs.append(dict(seed=ctx.seed + 77, mode="plain", level="ch", count=8, maxops=400, bad=0))
         hists, blocks, res = validate_batch(ctx, binary, cfgs, "hist-%d" % g, "history", counters)
         if g == 0:
             hid = hists[0]["id"]
